@@ -837,6 +837,9 @@ static const struct cscope order_quick[] = {
     { 0, 2, 3, 6, 400000, 100 }, { 1, 2, 3, 6, 400000, 100 },   /* two trees: swap */
     { 0, 2, 4, 5, 400000, 100 }, { 1, 2, 4, 5, 400000, 100 },
     { 0, 2, 3, 4, 400000, 100, 1 }, { 1, 2, 3, 4, 400000, 100, 1 },     /* two trees linking through different nodes */
+    { 0, 1, 5, 8, 400000, 100 }, { 1, 1, 5, 8, 400000, 100 },           /* ~32k / ~21k states */
+    { 0, 1, 4, 9, 400000, 100 }, { 1, 1, 4, 9, 400000, 100 },
+    { 0, 2, 3, 7, 400000, 100 }, { 1, 2, 3, 7, 400000, 100 },
 };
 static const struct cscope order_thorough[] = {
     { 0, 1, 7, 7, 4000000, 200 }, { 1, 1, 7, 7, 4000000, 200 }, /* ~109k / ~52k states */
@@ -861,6 +864,8 @@ static const struct cscope rb_quick[] = {
     { 1, 1, 1, 20, 400000, 100 },
     { 1, 1, 7, 6, 400000, 100 },
     { 1, 2, 3, 4, 400000, 100, 1 },     /* two trees linking through different nodes: swap must carry `off` */
+    { 1, 1, 5, 9, 400000, 100 },        /* ~43k */
+    { 1, 1, 4, 10, 400000, 100 },       /* ~29k */
 };
 static const struct cscope rb_thorough[] = {
     { 1, 1, 8, 8, 4000000, 200 },       /* ~310k */
@@ -1103,9 +1108,9 @@ static uint64_t nrandom(void)
 {
     if (mc_mode) return mode == MODE_CLEAR ? 64 : 3000;
     switch (mode) {
-    case MODE_RB: return vrt_thorough ? 24000 : 2000;
+    case MODE_RB: return vrt_thorough ? 24000 : 5000;
     case MODE_CLEAR: return vrt_thorough ? 1500 : 96;
-    default: return vrt_thorough ? 60000 : 6000;
+    default: return vrt_thorough ? 60000 : 30000;
     }
 }
 #define NSC(a) ((int)(sizeof(a) / sizeof((a)[0])))
